@@ -464,7 +464,17 @@ pub struct Grid {
 }
 
 pub const STATUS: &[Option<u16>] = &[None, Some(301), Some(404), Some(0), Some(410)];
-pub const CONDS: &[(Option<&[u16]>, Option<bool>)] = &[(None, None), (Some(&[404]), None), (Some(&[404]), Some(true)), (Some(&[200, 404]), None), (Some(&[]), None)];
+pub const CONDS: &[(Option<&[u16]>, Option<bool>)] = &[
+    (None, None),
+    (Some(&[404]), None),
+    (Some(&[404]), Some(true)),
+    (Some(&[200, 404]), None),
+    (Some(&[]), None),
+    // unsorted and repeated code lists
+    (Some(&[500, 404]), None),
+    (Some(&[500, 200, 404, 404]), Some(true)),
+    (Some(&[410, 301, 200]), None),
+];
 pub const FLAGS: &[(Option<bool>, Option<bool>)] = &[(None, None), (Some(true), None), (None, Some(true)), (Some(false), Some(false)), (Some(true), Some(true))];
 pub const LOGS: &[Option<bool>] = &[None, Some(true), Some(false)];
 pub const SAMPLINGS: &[Option<u32>] = &[None, Some(0), Some(100)];
